@@ -38,6 +38,14 @@ class DateTimeSub(_dt.datetime):
     pass
 
 
+import enum  # noqa: E402
+
+
+class Tag(str, enum.Enum):
+    """A str-mixin enum: its members ARE strs (== "red"), while str(member) is 'Tag.RED'."""
+    RED = "red"
+
+
 # plain subclasses of built-ins (no overrides): an instance IS a str / int / float / list / dict
 SUBS = {StrSub: str, IntSub: int, FloatSub: float, ListSub: list, DictSub: dict}
 
@@ -49,6 +57,9 @@ def register(name, obj):
     NAMED[name] = obj
     _BY_ID[id(obj)] = name
     return obj
+
+
+TAG_RED = register("tag_red", Tag.RED)
 
 
 def src(v):
